@@ -1,6 +1,6 @@
 SPECIFICATION Spec
 CONSTANTS
-  Tables <- MCTables
+  Tables <- MCTablesQ
   Bytes <- MCBytes
   MaxBytes = 4
   MaxLines = 1
